@@ -177,7 +177,9 @@ func c20ValidHist(n0 int, h string) bool {
 			afterE = true
 		case 'P':
 		case 'S':
-			if !afterE {
+			// before the export only directly in front of it: the regular snapshot
+			// and the exported one then have the same index ("PSE")
+			if !afterE && !strings.Contains(h, "SE") {
 				return false
 			}
 		case 'A', 'W', 'D':
@@ -1426,7 +1428,7 @@ func c20Enumerate(thorough bool) []c20Cfg {
 		}
 		// Q2: core histories (each membership change kind before and after the
 		// export, empty / maximal histories) x every list kind, sm/db rotating.
-		for _, h := range []string{"E", "PE", "EP", "PPPE", "PDEP", "PAEP", "NPEP", "WPEP", "PEDP", "PEAPS", "DEPP", "PENP"} {
+		for _, h := range []string{"E", "PE", "EP", "PPPE", "PDEP", "PAEP", "NPEP", "WPEP", "PEDP", "PEAPS", "DEPP", "PENP", "PSE"} {
 			for _, l := range c20Lists {
 				rot(3, h, l)
 			}
@@ -1466,7 +1468,7 @@ func c20Enumerate(thorough bool) []c20Cfg {
 	}
 	// T3: a regular (non exported) snapshot on every replica after the export:
 	// core histories x every list x every sm x db.
-	for _, h := range []string{"EPS", "PEPS", "PPEPS", "PEPPS", "PDEPS", "PEDPS", "PAEPS", "PEAPS", "NPEPS", "PENPS", "WPEPS", "PEWPS"} {
+	for _, h := range []string{"EPS", "PEPS", "PPEPS", "PEPPS", "PDEPS", "PEDPS", "PAEPS", "PEAPS", "NPEPS", "PENPS", "WPEPS", "PEWPS", "PSE", "PSEP"} {
 		for _, l := range c20Lists {
 			full(3, h, l)
 		}
